@@ -1,4 +1,4 @@
-# paste into PROPS of bin/props.py (slice c14c19); C14 covers only the keys part: add the closed-loop stream / audit of the other slice
+PROPS.update({
     "C19": {
         "streams": ["c19"],
         "timeout": 300,
@@ -38,3 +38,4 @@
         "level_text": "Kernel-checked theorems (Props/C14Keys) for ALL group names, vBucket ids and ids: every checkpoint, instance and index key is metadata for IsMetadata; a decoder recovers (group, vb) from every checkpoint key, hence checkpointKey is injective for all names (no name is ambiguous; the '.' rejection of getCheckpointID is characterised separately); instance / index keys are injective and disjoint from checkpoint keys for colon-free ids, with proved counter-examples otherwise; IsMetadata is exactly the two-prefix test (false for every proper prefix of a prefix, for a prefix occurring later in the key, for values without a Key field). Tied to the real getCheckpointID / helpers.IsMetadata by a differential run with the decoder and the filter monitor evaluated on the real bytes.",
         "level_note": "trusted: Lean kernel; the 40-line model of the key builders and IsMetadata; strconv.Itoa = Nat.toDigits 10 (checked by the differential run over all uint16 boundary ids); the verif-tagged export hook; membership key formats tied only at L2",
     },
+})
